@@ -8,6 +8,34 @@ from rules.vm_state import kind_types
 HEAP_MUT_ACCESSORS = {"get_struct_mut", "get_array_mut", "get_channel_mut"}
 
 
+def type_closure(items, ty, depth=0, seen=None):
+    """Text of a type with aliases, structs and enums defined in this file expanded (bounded), to ask 'can it hold X?'."""
+    seen = seen if seen is not None else set()
+    out = ty
+    import re as _re
+
+    for name in set(_re.findall(r"[A-Za-z_][A-Za-z0-9_]*", ty)):
+        if name in seen or depth > 4:
+            continue
+        for it, _ in q.iter_items(items):
+            if it["k"] == "TypeAlias" and it["name"] == name:
+                seen.add(name)
+                out += " " + type_closure(items, it["ty"], depth + 1, seen)
+            elif it["k"] == "Enum" and it["name"] == name and name not in ("ValueTag", "ObjectKind", "GcState"):
+                seen.add(name)
+                for v in it["variants"]:
+                    for fl in v["fields"]:
+                        out += " " + type_closure(items, fl["ty"], depth + 1, seen)
+    return out
+
+
+def holds_values(items, ty):
+    t = type_closure(items, ty).replace("ValueTag", "")
+    import re as _re
+
+    return bool(_re.search(r"\bValue\b", t)) or "*mut" in t or "*const" in t
+
+
 def obj_root(s):
     """The heap object a payload expression belongs to: the ('opnd'|'stk', .., kind) accessed value."""
     for t in subterms(s):
@@ -22,6 +50,14 @@ def gc_barrier(ctx, r):
     if arms is None:
         return
     n = 0
+    items = ctx.file_items(VM)
+    k2t, _ = kind_types(items)
+    acc_ty = {"struct": "StructObject", "array": "ArrayObject", "channel": "ChannelObject", "variant": "EnumObject"}
+    valueless = set()
+    for acc, tyname in acc_ty.items():
+        st = q.find_struct(items, tyname)
+        if st is not None and tyname != "StructObject" and not any(holds_values(items, fl["ty"]) for fl in st["fields"] if fl["name"] != "header"):
+            valueless.add(acc)
     for v, arm, an in arms:
         barriers = [(ev.data[0], ev.data[1], i) for i, ev in enumerate(an.events) if ev.kind == "barrier"]
         for i, ev in enumerate(an.events):
@@ -40,6 +76,9 @@ def gc_barrier(ctx, r):
                 continue
             obj, val, how = store
             n += 1
+            if obj[2] in valueless:
+                r.ob(True, "", VM, ev.line, "", sample=f"{v}: {how} into a {obj[2]} object, whose payload type holds no heap Values (owned data): no barrier needed")
+                continue
             if any(t[0] == "imm" for t in subterms(val)) and not any(t[0] in ("opnd", "stk") for t in subterms(val)):
                 r.ob(True, "", VM, ev.line, "", sample=f"{v}: {how} of an immediate constant (not a pointer): no barrier needed")
                 continue
@@ -188,7 +227,7 @@ def root_marker(items):
     return smp
 
 
-@rule("GC-CHILDREN", ["C06", "C08"], "process_gray marks, and deep_copy copies, every Value-typed payload field of each object kind")
+@rule("GC-CHILDREN", ["C06", "C08", "C09"], "process_gray marks, and deep_copy copies, every Value-typed payload field of each object kind")
 def gc_children(ctx, r):
     items = ctx.file_items(VM)
     if items is None:
@@ -214,18 +253,29 @@ def gc_children(ctx, r):
             continue
         for fl in st["fields"]:
             t = fl["ty"].replace(" ", "")
-            if "Value" not in t.replace("ValueTag", ""):
+            if fl["name"] == "header" or not holds_values(items, fl["ty"]):
                 continue
             n += 1
             used = any(x["k"] == "Field" and x["f"] == fl["name"] for x in q.walk(arm["body"]))
             marks = any(x["k"] == "Call" and q.show(x["f"]).endswith("mark") for x in q.walk(arm["body"]))
             r.ob(used and marks, f"vm.rs:process_gray:{kind}:{fl['name']}:not-marked", VM, arm["l"],
                  f"process_gray: {ty}.{fl['name']} ({fl['ty']}) is not marked when an object of kind {kind} is scanned", sample=f"process_gray {kind}: marks .{fl['name']}")
+            if any(c in t for c in ("Vec<", "VecDeque<")):
+                # a collection field: the loop that marks must range over the whole collection, not a partial view of it
+                whole = {f"obj.{fl['name']}", f"&obj.{fl['name']}", f"obj.{fl['name']}.iter()"}
+                guards = {b for x in q.walk(arm["body"]) if x["k"] == "Local" and x.get("init") is not None and f"obj.{fl['name']}" in q.show(x["init"]) and q.show(x["init"]).endswith(".lock().unwrap()") for b in q.pat_bindings(x["pat"])}
+                for gname in guards:
+                    whole |= {gname, "&" + gname, gname + ".iter()", "&*" + gname}
+                loops = [x for x in q.walk(arm["body"]) if x["k"] == "For" and any(y["k"] == "Call" and q.show(y["f"]).endswith("mark") for y in q.walk(x["body"]))]
+                srcs = [q.show(x["e"]).replace(" ", "") for x in loops]
+                r.ob(bool(loops) and all(s_ in whole for s_ in srcs), f"vm.rs:process_gray:{kind}:{fl['name']}:partially-marked", VM, arm["l"],
+                     f"process_gray: the elements of {ty}.{fl['name']} are marked by iterating `{srcs}`; the whole collection must be traversed (a partial view such as one slice of a ring buffer leaves reachable elements white)",
+                     sample=f"process_gray {kind}: every element of .{fl['name']} ({srcs})")
         if ty == "StructObject":
             n += 1
             r.ob(any(x["k"] == "MethodCall" and x["m"] == "get_fields" for x in q.walk(arm["body"])) and any(x["k"] == "Call" and q.show(x["f"]).endswith("mark") for x in q.walk(arm["body"])),
                  "vm.rs:process_gray:Struct:fields-not-marked", VM, arm["l"], "process_gray: the trailing fields of a StructObject are not marked", sample="process_gray Struct: marks get_fields()")
-    r.count("Value-typed payload fields", n, 4, VM)
+    r.count("Value-typed payload fields", n, 3, VM)
     # deep_copy: total over ValueTag, recursive on payloads, channel shares the queue
     dc = q.find_fn(items, "deep_copy", impl_ty="Value")
     tags = q.find_enum(items, "ValueTag")
@@ -468,11 +518,17 @@ def ch_queue(ctx, r):
     # ChannelRead pushes only deep_copy(dequeued)
     if "ChannelRead" in by:
         arm, an = by["ChannelRead"]
+        # conversions that materialise a value in a given thread's heap: fns returning Value that take the thread and allocate in it
+        materialise = set()
+        for g, _ in q.iter_items(items):
+            if g["k"] == "Fn" and g.get("body") is not None and (g.get("ret") or "").strip() == "Value" and any("VmGreenThread" in p.get("ty", "") for p in g["params"]):
+                if any(x["k"] == "Call" and q.show(x["f"]).endswith("Object::new") or (x["k"] == "Call" and q.show(x["f"]).endswith("Object::new_with_data")) for x in q.walk(g["body"])):
+                    materialise.add(g["name"])
         pushes = [ev for ev in an.events if ev.kind == "push" and ev.data[0][0] != "stk"]
-        ok = bool(pushes) and all(ev.data[0][0] == "call" and ev.data[0][1] == "deep_copy" for ev in pushes)
-        r.ob(ok, "vm.rs:step:ChannelRead:value-not-copied", VM, arm["l"], f"ChannelRead must push deep_copy(dequeued value) into the reader's heap; it pushes {[sshow(ev.data[0]) for ev in pushes]}", sample="ChannelRead: pushes deep_copy(read_value())")
-        dcs = [x for x in q.walk(arm["body"]) if x["k"] == "MethodCall" and x["m"] == "deep_copy"]
-        r.ob(bool(dcs) and all(q.show(x["args"][0]) == "self" for x in dcs), "vm.rs:step:ChannelRead:copy-destination", VM, arm["l"], "the copy must be allocated in the reading thread (deep_copy(self))")
+        ok = bool(pushes) and all(ev.data[0][0] == "call" and ev.data[0][1] in materialise for ev in pushes)
+        r.ob(ok, "vm.rs:step:ChannelRead:value-not-copied", VM, arm["l"], f"ChannelRead must push a copy of the dequeued value materialised in the reader's heap (one of {sorted(materialise)}); it pushes {[sshow(ev.data[0]) for ev in pushes]}", sample=f"ChannelRead: pushes {[sshow(ev.data[0]) for ev in pushes]}")
+        dcs = [x for x in q.walk(arm["body"]) if x["k"] == "MethodCall" and x["m"] in materialise]
+        r.ob(bool(dcs) and all(q.show(x["args"][0]) == "self" for x in dcs), "vm.rs:step:ChannelRead:copy-destination", VM, arm["l"], "the copy must be allocated in the reading thread (conversion applied to `self`)")
     else:
         r.missing("step:ChannelRead", VM)
     # SpawnTask: captures deep-copied into the new thread
@@ -506,11 +562,11 @@ def ch_own(ctx, r):
     n = 0
     for st in (it for it, _ in q.iter_items(items) if it["k"] == "StructDef"):
         for fl in st["fields"]:
-            t = fl["ty"].replace(" ", "")
+            t = type_closure(items, fl["ty"]).replace(" ", "")
             if "Arc<" in t and "Mutex<" in t:
                 n += 1
-                holds_values = "Value" in t.replace("ValueTag", "")
-                r.ob(not holds_values, f"vm.rs:{st['name']}.{fl['name']}:shared-container-holds-thread-local-values", VM, fl["l"],
+                hv = holds_values(items, fl["ty"])
+                r.ob(not hv, f"vm.rs:{st['name']}.{fl['name']}:shared-container-holds-thread-local-values", VM, fl["l"],
                      f"{st['name']}.{fl['name']}: {fl['ty']} is shared between threads (deep_copy clones the Arc) but stores `Value`s, i.e. raw pointers into the writing thread's heap: "
                      "a value read after the writer finished or collected is a dangling pointer, and the reader's collector marks objects of a foreign heap",
                      sample=f"{st['name']}.{fl['name']}: owned message representation")
